@@ -135,8 +135,15 @@ func (r *Run) libCall(st *State, fr *Frame, name string, recv Val, args []Val, s
 		st.assume(Eq(r.ctxValues(c), r.ctxValues(p)))
 		f := e.freshConst("cancelfn", SFn)
 		st.assume(Not(Eq(f, NilOf(SFn))))
+		r.assumeFreshTerm(st, f)
+		r.assumeFreshTerm(st, c)
 		e.methods[f.S] = &BoundMethod{Name: "context.CancelFunc", Recv: c, Term: f}
+		e.regionWrite1(st, "cnt.calls", SInt, f, IntLit(0)) // a new function value has not been called yet
 		st.Ghost["mustcall:"+f.S] = T{"pending", "Opaque"}
+		if le, ok := st.Ghost["ctxerr.last:"+p.S]; ok {
+			// derived just now: cancelled exactly when the parent was at its last check
+			st.Ghost["ctxerr.last:"+c.S] = le
+		}
 		return ret(c, f)
 	case "context.CancelFunc":
 		c := e.asTerm(recv, SAny)
@@ -292,7 +299,14 @@ func (r *Run) condWait(st *State, fr *Frame, cond T, in ssa.Instruction, dst ssa
 	ord := e.callOrdinalKind(fr.Fn, in)
 	name := fmt.Sprintf("%s/safe:condwait#%d", e.fnName[fr.Fn], ord)
 	if !known {
-		e.emitWith(st, name, "", nil, False, "cond.Wait on a cond whose lock is declared (cond clause) at "+e.posOf(in), e.posOf(in), nil, nil)
+		// a cond this function knows nothing about (e.g. WaitCond's parameter): its Locker must be held;
+		// nothing else is known about the state it guards
+		g := False
+		if r.heldIdx(st, e.condLocker(st, cond), true) >= 0 {
+			g = True
+		}
+		e.emitWith(st, name, "", nil, g, "cond.Wait with the cond's Locker held at "+e.posOf(in), e.posOf(in), []string{"C05", "C11"}, nil)
+		r.yield(st, fr, in, "cond.Wait")
 		r.setResult(st, fr, dst, nil)
 		return nil
 	}
